@@ -22,7 +22,7 @@ TARGET = 'checks.c20:run'
 KINDS = ['I', 'QU', 'IQU', 'IQUV']
 OPS = ['add', 'sub', 'mul', 'truediv', 'pow']
 OPERANDS = ['int', 'float', 'jnp0d', 'jnparr', 'jnp1', 'same', 'complex', 'jnpbig']
-TREES = ['np_single', 'np_nested_single', 'arr', 'tuple', 'dict', 'nested', 'stokes', 'complex', 'mixed', 'mixed_same_shape', 'empty_tuple']
+TREES = ['real_then_complex', 'np_single', 'np_nested_single', 'arr', 'tuple', 'dict', 'nested', 'stokes', 'complex', 'mixed', 'mixed_same_shape', 'empty_tuple']
 
 
 def plan(tier, seed):
@@ -332,6 +332,7 @@ def run(phase, cases, ctx):
                     'nested': {'a': [jnp.asarray(a1), (jnp.asarray(a2),)], 'b': jnp.asarray(2.0, jnp.float32)},
                     'stokes': StokesQUPyTree(jnp.asarray(a1), jnp.asarray(-a1)), 'complex': (jnp.asarray(c1), jnp.asarray(a1)),
                     'mixed': {'h': jnp.asarray(a1, jnp.float16), 's': jnp.asarray(a2), 'i': jnp.asarray([1, 2], jnp.int32)}, 'empty_tuple': (),
+                    'real_then_complex': {'a': jnp.asarray(a1), 'b': jnp.asarray(c1), 'c': jnp.asarray(c1 * (2 - 1j))},
                     'np_single': np.array([1.0, -2.0, 3.0]), 'np_nested_single': {'a': [np.array([4, 5, 6])]},
                     'mixed_same_shape': {'a': jnp.asarray([1, 2, 3], jnp.int32), 'b': jnp.asarray(a1), 'c': jnp.asarray(a1, jnp.float16), 'd': jnp.asarray([4, 5, 6], jnp.uint8)},
                 }
@@ -381,7 +382,7 @@ def run(phase, cases, ctx):
                                 elif not isinstance(l, jax.ShapeDtypeStruct) and not same(l, np.asarray(o).astype(want)):
                                     bad(case, 'as_promoted_dtype', 'values changed')
                 elif h == 'random_like':
-                    if t in ('complex', 'mixed', 'mixed_same_shape', 'empty_tuple', 'np_nested_single'):
+                    if t in ('complex', 'real_then_complex', 'mixed', 'mixed_same_shape', 'empty_tuple', 'np_nested_single'):
                         continue
                     key = jax.random.PRNGKey(1)
                     for fn in (lambda q: ft.normal_like(q, key), lambda q: ft.uniform_like(q, key, 2.0, 3.0)):
